@@ -8,6 +8,7 @@ let predict (c : string) (obs : string) : string * string * bool =
   match split_blank c with
   | ["seq"; tree; ops] -> seq_case tree ops obs
   | ["conc"; tree; s; plan] -> C02conc.conc_case tree (s = "S") plan obs
+  | ["race"; tree; _; _] -> C02conc.race_case tree obs
   | _ -> ("unknown-case", "BAD:unknown-case", false)
 
 let () = run_cases predict
